@@ -24,7 +24,7 @@ members to typed unknowns true of the replaced part.
 import CtyModel.Props.C11
 import CtyModel.Lemmas.CoversWeaken
 import CtyModel.Lemmas.C12Funcs
-import CtyModel.Lemmas.d12bZipmap
+import CtyModel.Lemmas.d12bConcat
 namespace CtyModel
 namespace C12
 open Fn Std
@@ -830,6 +830,40 @@ theorem sound_zipmap (E : Stdlib.Env) (ok wk ov wv r : Value)
     obtain ⟨_, hkwv⟩ := D12b.two_args_known (spec := Stdlib.zipmapSpec) rfl rfl rfl hri
     exact D12b.zipmap_implSound E ok wk ov wv h1 h2 hmok hmwk hmov hmwv hsk hck hkv hfo hfw hkwv hcv
 
+/-- **`concat`**, `_partial`: lists / tuples known at the top (the parameter refuses unknowns: an unknown argument
+is the framework's short-circuit, to the predicted type — the same type, or the placeholder when the tuple way
+of the `Type` callback meets an unknown list) whose MEMBERS are weakened are concatenated member by member.
+`hsame` (decidable): when the result is a list, every argument already has that list type, so that no
+`convert.Convert` — a parameter of the model — is involved.  `hns`: no argument is a set (`concat` refuses sets). -/
+theorem sound_concat_partial (E : Stdlib.Env) (os ws : List Value) (r : Value)
+    (hk : ∀ a ∈ os, a.whollyKnown = true)
+    (hmo : ∀ a ∈ os, a.containsMarked = false) (hmw : ∀ a ∈ ws, a.containsMarked = false)
+    (hns : ∀ a ∈ os, Stdlib.isSetTy a.ty = false)
+    (hsame : ∀ e, Stdlib.concatType E os = .ok (.list e) → ∀ a ∈ os, a.ty.equals (Ty.list e).stripOpt = true)
+    (hTw : ∀ t, Stdlib.concatType E ws = .ok t → Ty.wf t = true)
+    (hcov : coversAll ws os = true) (hty : TyKept ws os) (hrwf : Ty.wf r.ty = true) (hrefl : Covers r r = true)
+    (hr : (callUnrefined Stdlib.concatSpec (Stdlib.concatType E) (Stdlib.concatImpl E) os).1 = .ok r) :
+    ∃ r', (callUnrefined Stdlib.concatSpec (Stdlib.concatType E) (Stdlib.concatImpl E) ws).1 = .ok r' ∧
+      Covers r' r = true := by
+  have hko : ∀ a ∈ os, a.isKnown = true := fun a ha => C12L.whollyKnown_isKnown (hk a ha)
+  have hpair : Passes Stdlib.concatSpec ws → D12b.PairArgs ws os := by
+    intro hp
+    unfold Passes D12b.Passes at hp
+    rw [D12b.concatSpec_expand] at hp
+    exact D12b.pairArgs_of (D12b.firstFail_none_tyKeptS _ ws os hp (by simp)
+      (fun p hp' => by rw [List.eq_of_mem_replicate hp']) hty) hmw hmo hcov
+  refine impl_soundness_lifts_to_call _ _ _ os ws r ?_ hTw hko hmo hmw hcov hty hrwf hrefl ?_ hr
+  · intro hp t ht
+    rcases D12b.concatType_weaken E ws os (hpair hp) hko ht with h | ⟨_, h⟩
+    · exact ⟨t, h, fun _ hc => hc⟩
+    · exact ⟨.dyn, h, D12b.admits_dyn' t⟩
+  · intro hp hri
+    have hkw : ∀ a ∈ ws, a.isKnown = true := by
+      unfold ReachesImpl D12b.ReachesImpl at hri
+      rw [D12b.concatSpec_expand] at hri
+      exact D12b.pass2_all_known _ ws hri (by simp) (fun p hp' => by rw [List.eq_of_mem_replicate hp'])
+    exact D12b.concat_implSound E os ws (hpair hp) hko hkw hns hsame
+
 /-! ### the hypotheses are satisfiable -/
 
 example : TypeMonoW (C11.staticType (.list .string)) := static_typeMonoW _
@@ -1047,6 +1081,42 @@ example : ∃ r', (callUnrefined Stdlib.zipmapSpec (Stdlib.zipmapType {}) (Stdli
     (by intro t h; have e : Stdlib.zipmapType {} [⟨.list .string, .seq [.unk .unref, .s "l"]⟩, ⟨.list .number, .seq [.n (.fin false 1 0 64), .n (.fin false 1 1 64)]⟩] = .ok (.map .number) := rfl
         rw [e] at h; cases h; rfl)
     (by decide) (by decide) (by rfl)
+
+def exEnvU : Stdlib.Env := { unify := fun ts => .ok ts.head? }
+/-- `concat(["a","b"], ["b"])` with a member of the first list unknown; and of tuples -/
+example : ∃ r', (callUnrefined Stdlib.concatSpec (Stdlib.concatType exEnvU) (Stdlib.concatImpl exEnvU)
+      [exLw, ⟨.list .string, .seq [.s "b"]⟩]).1 = .ok r' ∧ Covers r' ⟨.list .string, .seq [.s "a", .s "b", .s "b"]⟩ = true :=
+  sound_concat_partial exEnvU [exL, ⟨.list .string, .seq [.s "b"]⟩] [exLw, ⟨.list .string, .seq [.s "b"]⟩]
+    ⟨.list .string, .seq [.s "a", .s "b", .s "b"]⟩ (by decide) (by decide) (by decide) (by decide)
+    (by
+      intro e h a ha
+      have e1 : Stdlib.concatType exEnvU [exL, ⟨.list .string, .seq [.s "b"]⟩] = .ok (.list .string) := rfl
+      rw [e1] at h
+      cases h
+      simp only [List.mem_cons, List.not_mem_nil, or_false] at ha
+      rcases ha with rfl | rfl <;> rfl)
+    (by
+      intro t h
+      have e1 : Stdlib.concatType exEnvU [exLw, ⟨.list .string, .seq [.s "b"]⟩] = .ok (.list .string) := rfl
+      rw [e1] at h; cases h; rfl)
+    (by decide) ⟨Or.inl rfl, Or.inl rfl, trivial⟩ (by decide) (by decide) (by rfl)
+example : ∃ r', (callUnrefined Stdlib.concatSpec (Stdlib.concatType {}) (Stdlib.concatImpl {})
+      [⟨.tuple [.number, .string], .seq [.unk .unref, .s "b"]⟩, ⟨.tuple [.bool], .seq [.b true]⟩]).1 = .ok r' ∧
+    Covers r' ⟨.tuple [.number, .string, .bool], .seq [.n (.fin false 1 1 64), .s "b", .b true]⟩ = true :=
+  sound_concat_partial {} [exNeedle, ⟨.tuple [.bool], .seq [.b true]⟩]
+    [⟨.tuple [.number, .string], .seq [.unk .unref, .s "b"]⟩, ⟨.tuple [.bool], .seq [.b true]⟩]
+    ⟨.tuple [.number, .string, .bool], .seq [.n (.fin false 1 1 64), .s "b", .b true]⟩ (by decide) (by decide) (by decide) (by decide)
+    (by
+      intro e h
+      have e1 : Stdlib.concatType {} [exNeedle, ⟨.tuple [.bool], .seq [.b true]⟩] = .ok (.tuple [.number, .string, .bool]) := rfl
+      rw [e1] at h
+      cases h)
+    (by
+      intro t h
+      have e1 : Stdlib.concatType {} [⟨.tuple [.number, .string], .seq [.unk .unref, .s "b"]⟩, ⟨.tuple [.bool], .seq [.b true]⟩] =
+        .ok (.tuple [.number, .string, .bool]) := rfl
+      rw [e1] at h; cases h; rfl)
+    (by decide) ⟨Or.inl rfl, Or.inl rfl, trivial⟩ (by decide) (by decide) (by rfl)
 
 end C12
 end CtyModel
